@@ -60,6 +60,16 @@ pub struct ArrDecl {
 pub struct ParDecl {
     pub name: String,
     pub values: Vec<i64>,
+    pub kind: ParKind,
+}
+
+#[derive(Clone, Copy, Debug, PartialEq)]
+pub enum ParKind {
+    IntArr,
+    BoolArr,
+    Int,
+    Bool,
+    Set,
 }
 
 #[derive(Clone, Debug, PartialEq)]
@@ -113,12 +123,15 @@ impl Fzn {
     pub fn text(&self) -> String {
         let mut s = String::new();
         for p in &self.pars {
-            s.push_str(&format!(
-                "array [1..{}] of int: {} = [{}];\n",
-                p.values.len(),
-                p.name,
-                p.values.iter().map(|x| x.to_string()).collect::<Vec<_>>().join(",")
-            ));
+            let ints = p.values.iter().map(|x| x.to_string()).collect::<Vec<_>>().join(",");
+            let bools = p.values.iter().map(|x| (*x == 1).to_string()).collect::<Vec<_>>().join(",");
+            s.push_str(&match p.kind {
+                ParKind::IntArr => format!("array [1..{}] of int: {} = [{}];\n", p.values.len(), p.name, ints),
+                ParKind::BoolArr => format!("array [1..{}] of bool: {} = [{}];\n", p.values.len(), p.name, bools),
+                ParKind::Int => format!("int: {} = {};\n", p.name, ints),
+                ParKind::Bool => format!("bool: {} = {};\n", p.name, bools),
+                ParKind::Set => format!("set of int: {} = {{{}}};\n", p.name, ints),
+            });
         }
         for v in &self.vars {
             let dom = match &v.dom {
@@ -188,6 +201,11 @@ impl Eval<'_> {
             Arg::V(n) => self.a[n],
             Arg::I(i) => *i,
             Arg::B(b) => *b as i64,
+            Arg::Name(n) => {
+                let p = self.f.pars.iter().find(|p| &p.name == n).expect("scalar parameter");
+                assert!(matches!(p.kind, ParKind::Int | ParKind::Bool), "harness: not a scalar parameter");
+                p.values[0]
+            }
             other => panic!("harness: not a scalar: {other:?}"),
         }
     }
@@ -209,6 +227,11 @@ impl Eval<'_> {
         match x {
             Arg::SetRange(a, b) => (*a..=*b).collect(),
             Arg::SetList(v) => v.clone(),
+            Arg::Name(n) => {
+                let p = self.f.pars.iter().find(|p| &p.name == n).expect("set parameter");
+                assert!(p.kind == ParKind::Set, "harness: not a set parameter");
+                p.values.clone()
+            }
             other => panic!("harness: not a set: {other:?}"),
         }
     }
@@ -550,7 +573,7 @@ pub fn cases(tier: Tier) -> Vec<Case> {
         insts.iter().find(|c| c.name == "int_ne").unwrap().clone(),
     ];
     for c in &core {
-        for variant in 0..8 {
+        for variant in 0..14 {
             let mut f = model(vec![c.clone(), ConDecl { name: "int_le", args: vec![v("x"), v("x")] }], Goal::Satisfy, String::new());
             // make sure all base variables exist for the variants
             f.vars = base_vars();
@@ -582,7 +605,7 @@ pub fn cases(tier: Tier) -> Vec<Case> {
                 5 => {
                     // variable array with output_array and parameter array used by name
                     f.arrs.push(ArrDecl { name: "a".into(), elems: vec!["x".into(), "y".into(), "z".into()], is_bool: false, output: true });
-                    f.pars.push(ParDecl { name: "cs".into(), values: vec![1, -1, 1] });
+                    f.pars.push(ParDecl { name: "cs".into(), values: vec![1, -1, 1], kind: ParKind::IntArr });
                     f.cons.push(ConDecl { name: "int_lin_le", args: vec![Arg::Name("cs".into()), Arg::Name("a".into()), Arg::I(1)] });
                     for vd in f.vars.iter_mut() {
                         vd.output = vd.dom.is_bool();
@@ -593,11 +616,49 @@ pub fn cases(tier: Tier) -> Vec<Case> {
                     f.arrs.push(ArrDecl { name: "bs".into(), elems: vec!["p".into(), "q".into()], is_bool: true, output: true });
                     f.cons.push(ConDecl { name: "array_bool_or", args: vec![Arg::Name("bs".into()), v("r")] });
                 }
-                _ => {
+                7 => {
                     // non-output variables only one output
                     for vd in f.vars.iter_mut() {
                         vd.output = vd.name == "y";
                     }
+                }
+                8 => {
+                    // alias declared with a set domain onto an interval variable
+                    f.vars.push(VarDecl { name: "w".into(), dom: Dom::Set(vec![0, 2]), alias: Some("x".into()), fixed: None, output: true });
+                }
+                9 => {
+                    // alias declared with an interval onto a set variable (upper bounds coincide)
+                    f.vars.push(VarDecl { name: "w".into(), dom: Dom::Range(0, 2), alias: Some("y".into()), fixed: None, output: true });
+                }
+                10 => {
+                    // scalar, set and bool-array parameters
+                    f.pars.push(ParDecl { name: "n".into(), values: vec![1], kind: ParKind::Int });
+                    f.pars.push(ParDecl { name: "bt".into(), values: vec![1], kind: ParKind::Bool });
+                    f.pars.push(ParDecl { name: "ss".into(), values: vec![0, 2], kind: ParKind::Set });
+                    f.pars.push(ParDecl { name: "bp".into(), values: vec![1, 0], kind: ParKind::BoolArr });
+                    f.cons.push(ConDecl { name: "int_le", args: vec![Arg::Name("n".into()), v("y")] });
+                    f.cons.push(ConDecl { name: "set_in", args: vec![v("x"), Arg::Name("ss".into())] });
+                    f.cons.push(ConDecl { name: "bool_eq_reif", args: vec![v("p"), Arg::Name("bt".into()), v("q")] });
+                    f.cons.push(ConDecl { name: "array_bool_element", args: vec![v("x"), Arg::Name("bp".into()), v("r")] });
+                }
+                11 => {
+                    // int parameter in linear arguments and as element of an array literal
+                    f.pars.push(ParDecl { name: "n".into(), values: vec![2], kind: ParKind::Int });
+                    f.cons.push(ConDecl { name: "int_lin_le", args: vec![Arg::Arr(vec![Arg::I(1), Arg::Name("n".into())]), Arg::Arr(vec![v("x"), v("z")]), Arg::Name("n".into())] });
+                    f.cons.push(ConDecl { name: "array_int_maximum", args: vec![v("y"), Arg::Arr(vec![v("x"), Arg::Name("n".into())])] });
+                }
+                12 => {
+                    // bool fixed to false, bool alias chain
+                    f.vars.push(VarDecl { name: "t".into(), dom: Dom::Bool, alias: None, fixed: Some(0), output: true });
+                    f.vars.push(VarDecl { name: "s".into(), dom: Dom::Bool, alias: Some("t".into()), fixed: None, output: true });
+                    f.cons.push(ConDecl { name: "array_bool_or", args: vec![Arg::Arr(vec![v("s"), v("p")]), v("q")] });
+                }
+                _ => {
+                    // several reified equalities of one variable combined in a clause
+                    f.cons.push(ConDecl { name: "int_eq_reif", args: vec![v("x"), Arg::I(0), v("p")] });
+                    f.cons.push(ConDecl { name: "int_eq_reif", args: vec![v("x"), Arg::I(2), v("q")] });
+                    f.cons.push(ConDecl { name: "int_ne_reif", args: vec![v("y"), Arg::I(1), v("r")] });
+                    f.cons.push(ConDecl { name: "bool_clause", args: vec![Arg::Arr(vec![v("p"), v("q")]), Arg::Arr(vec![v("r")])] });
                 }
             }
             for flags in [vec![], vec!["-a"]] {
@@ -621,13 +682,32 @@ pub fn cases(tier: Tier) -> Vec<Case> {
             }
             let mut f = base.clone();
             f.vars = base_vars();
-            f.search = match (i + j) % 3 {
+            f.search = match (i + 2 * j) % 3 {
                 0 => format!(":: int_search([x,y,z], {vs}, {ws}, complete) "),
                 1 => format!(":: seq_search([int_search([z,x], {vs}, {ws}, complete), bool_search([p,q], input_order, indomain_max, complete)]) "),
                 _ => format!(":: bool_search([q,p,r], {vs}, {ws}, complete) "),
             };
             f.goal = if j % 2 == 0 { Goal::Satisfy } else { Goal::Minimize("y".into()) };
             out.push(Case { f, flags: if i % 2 == 0 { vec!["-a"] } else { vec![] } });
+        }
+    }
+    // F5: unsatisfiable models (at compile time, at the root, only after search) x goals x flags
+    let c = |name: &'static str, args: Vec<Arg>| ConDecl { name, args };
+    let unsat: Vec<Vec<ConDecl>> = vec![
+        vec![c("int_eq", vec![v("x"), Arg::I(5)])],
+        vec![c("int_le", vec![v("x"), v("z")]), c("int_lt", vec![v("z"), v("x")])],
+        vec![c("int_lin_eq", vec![Arg::Arr(vec![Arg::I(2), Arg::I(2)]), Arg::Arr(vec![v("x"), v("z")]), Arg::I(3)])],
+        vec![c("pumpkin_all_different", vec![Arg::Arr(vec![v("x"), Arg::I(0), Arg::I(1), Arg::I(2)])])],
+        vec![c("bool_clause", vec![Arg::Arr(vec![v("p")]), Arg::Arr(vec![])]), c("bool_not", vec![v("p"), v("q")]), c("bool_eq", vec![v("p"), v("q")])],
+        vec![c("int_ne", vec![v("x"), v("z")]), c("int_ne", vec![v("x"), Arg::I(2)]), c("int_lin_eq", vec![Arg::Arr(vec![Arg::I(1), Arg::I(1)]), Arg::Arr(vec![v("x"), v("z")]), Arg::I(2)]), c("int_ne", vec![v("z"), Arg::I(2)])],
+        vec![c("int_times", vec![v("x"), v("x"), v("z")]), c("int_lt", vec![v("z"), Arg::I(0)])],
+        vec![c("int_eq_reif", vec![v("x"), Arg::I(0), v("p")]), c("int_eq_reif", vec![v("x"), Arg::I(2), v("q")]), c("bool_clause", vec![Arg::Arr(vec![v("p"), v("q")]), Arg::Arr(vec![])]), c("int_eq", vec![v("x"), Arg::I(1)])],
+    ];
+    for cons in unsat {
+        for goal in [Goal::Satisfy, Goal::Minimize("x".into()), Goal::Maximize("x".into())] {
+            for flags in &flag_sets {
+                out.push(Case { f: model(cons.clone(), goal.clone(), String::new()), flags: flags.clone() });
+            }
         }
     }
     out
